@@ -5,4 +5,5 @@ open Just.C12
 #print axioms tokens_tile
 #print axioms context_points
 #print axioms context_multiline
-#print axioms context_none
+#print axioms context_always
+#print axioms context_end_of_file
